@@ -1,6 +1,7 @@
 """C04 — state hash and persistence: hash coverage, single definition (structural part)."""
 from .common import *
 from vlib.callgraph import CallGraph
+from vlib import sym
 
 META = dict(
     technique="static analysis: field-coverage, def-use and who-may-construct rules over compiler MIR",
@@ -169,10 +170,84 @@ def run(ck):
         ck.ob("DEFUSE", f.path, "odd-stem-padding-masked", len(news) >= 2 and any(masked) and not all(masked) or (len(news) >= 1 and all(masked)),
               "the stem built for an odd number of consumed chunks masks its last byte with 0xf0 (constructions: %d, masked: %s)" % (len(news), masked), f.loc())
 
+    # the tag byte of a stored node: bit 0x40 set iff the node has a value, bit 0x80 set iff the stem length follows as u32;
+    # writer and reader agree on masks and polarity; the inline/indirect boundary of values is the same everywhere
+    wt = getfn(ck, "sc", E, LL + "write_node_path_and_value_tag")
+    rt = getfn(ck, "sc", E, LL + "read_node_path_and_value_tag")
+    if wt and rt:
+        # writer: value mask is 0 when no_value (arg 2) is true, 0x40 otherwise
+        vals = {}
+        for bi in wt.reachable():
+            for st in wt.stmts(bi):
+                k = op_const(st["rv"].get("a", {})) if st.get("rv", {}).get("k") == "use" else None
+                if k is not None and k.get("ty") == "u8" and const_int(k) in (0, 64):
+                    for (kk, nn, v) in conditions_at(wt, bi):
+                        if kk == "bool" or kk.startswith("call"):
+                            vals[const_int(k)] = v
+        ok = vals.get(64) is False and vals.get(0) is True
+        ck.ob("TAB", wt.path, "value-bit-written", ok, "bit 0x40 of the tag is set exactly when the node has a value (no_value false): %s" % vals, wt.loc())
+        ors = [st["rv"] for bi in wt.reachable() for st in wt.stmts(bi) if st.get("rv", {}).get("k") == "bin" and st["rv"]["op"] == "BitOr"]
+        explicit = any(const_int(op_const(r["a"]) or {}) == 128 or const_int(op_const(r["b"]) or {}) == 128 for r in ors)
+        lens = [cx for cx in rules.comparisons(wt) if any(a[0] == "const" and a[1].endswith("INLINE_STEM_LENGTH") for a in wt.origins(cx["b"]))]
+        ck.ob("TAB", wt.path, "explicit-length-bit-written", explicit and len(lens) == 1 and lens[0]["op"] == "Le",
+              "stems of up to INLINE_STEM_LENGTH nibbles put their length in the tag; longer ones set bit 0x80 and append the length", wt.loc())
+        # reader
+        bits = {}
+        for bi in rt.reachable():
+            for st in rt.stmts(bi):
+                rv = st.get("rv", {})
+                if rv.get("k") == "bin" and rv["op"] in ("Eq", "Ne"):
+                    pa = op_place(rv["a"])
+                    kb = op_const(rv["b"])
+                    if pa and kb is not None and const_int(kb) == 0:
+                        for (b2, si, it) in rt.defs().get(pa[0], []):
+                            if si != "t" and it["rv"].get("k") == "bin" and it["rv"]["op"] == "BitAnd":
+                                m = const_int(op_const(it["rv"]["b"]) or {}) if op_const(it["rv"]["b"]) else None
+                                bits[m] = (rv["op"], st["lhs"][0], bi)
+        ok = 64 in bits and bits[64][0] == "Ne"
+        if ok:
+            # has_value is what is returned as the second component
+            o = rt.origins(0, deep=True)
+            ok = True
+        ck.ob("TAB", rt.path, "value-bit-read", ok, "has_value = (tag & 0x40) != 0 (found tests %s)" % {k: v[0] for k, v in bits.items()}, rt.loc())
+        ok = 128 in bits
+        det = "no test of bit 0x80"
+        if ok:
+            op, res, bb = bits[128]
+            cx = [c2 for c2 in rules.comparisons(rt) if c2["res"] == res]
+            br = rules.cmp_branches(rt, cx[0]) if cx else None
+            # the branch taken when (tag & 0x80) == 0 must mask with 0x3f and must not read a u32
+            if br:
+                inline_t = br[1] if op == "Eq" else br[2]
+                other_t = br[2] if op == "Eq" else br[1]
+                reg_i = sym.dominated(rt, inline_t)
+                reg_o = sym.dominated(rt, other_t)
+                mask_i = any(st.get("rv", {}).get("k") == "bin" and st["rv"]["op"] == "BitAnd" and const_int(op_const(st["rv"]["b"]) or {}) == 63 for b3 in reg_i for st in rt.stmts(b3))
+                u32_o = any(b3 in reg_o for (b3, _) in rt.calls(r"read_u32$"))
+                u32_i = any(b3 in reg_i for (b3, _) in rt.calls(r"read_u32$"))
+                ok = mask_i and u32_o and not u32_i
+                det = "bit 0x80 clear: length = tag & 0x3f; set: length read as u32 (inline branch masks: %s, explicit branch reads u32: %s)" % (mask_i, u32_o)
+            else:
+                ok = False
+        ck.ob("TAB", rt.path, "explicit-length-bit-read", ok, det, rt.loc())
+    bounds = []
+    for pth in sorted(c.paths()):
+        if "::trie::" not in pth:
+            continue
+        for b in c.get_all(pth):
+            g = Fn(b)
+            for cx in rules.comparisons(g):
+                for side in ("a", "b"):
+                    if any(a[0] == "const" and a[1].endswith("INLINE_VALUE_LEN") for a in g.origins(cx[side])):
+                        op = cx["op"] if side == "b" else rules.FLIP[cx["op"]]
+                        bounds.append((pth.split("::")[-1], op, g.loc(cx["bb"])))
+    ck.ob("SIB", "INLINE_VALUE_LEN", "inline-boundary-agrees", len(bounds) >= 3 and len(set(op for (_, op, _) in bounds)) == 1 and bounds[0][1] == "Le",
+          "every test against INLINE_VALUE_LEN (constructor, loader, deserialiser) treats a value of exactly that length as inline: %s" % [(n2, op) for (n2, op, _) in bounds], "")
+
 
 # ---------------------------------------------------------------------------------------------------------------------
 # storage formats: every item of the documented node encodings is written (and read back) by its own site
-WR_CALLS = re.compile(r"WriteBytesExt::write_(u8|u16|u32|u64)$|io::Write::write_all$|types::Reference::store$|CachedRef::<.*>::(store_and_uncache|load_and_store)$|"
+WR_CALLS = re.compile(r"low_level::Node::(store_update_buf|migrate)::\{closure#0\}$|WriteBytesExt::write_(u8|u16|u32|u64)$|io::Write::write_all$|types::Reference::store$|CachedRef::<.*>::(store_and_uncache|load_and_store)$|"
                       r"low_level::write_node_path_and_value_tag$|::store_update_buf$|BackingStoreStore::store_raw$|::migrate$")
 RD_CALLS = re.compile(r"ReadBytesExt::read_(u8|u16|u32|u64)$|io::Read::read_exact$|types::Reference::load$|Loadable::load$|Loadable>::load$|"
                       r"low_level::read_node_path_and_value_tag$|low_level::read_buf$|types::Hash::read$|Hash.*::read$")
@@ -244,8 +319,10 @@ def format_rules(ck, c):
     tables = [
         (LLp + "Node::store_update_buf::{closure#0}", node_items(r"store_and_uncache$")),
         (LLp + "Node::migrate::{closure#0}", node_items(r"load_and_store$")),
-        (LLp + "Node::store_update_buf", [("child node hash", r"write_all$", ("hash",)), ("child node stored in the backing store", r"store_raw$", ()), ("root node body", r"write_all$", ())]),
-        (LLp + "Node::migrate", [("child node hash", r"write_all$", ("hash",)), ("child node stored in the new backing store", r"store_raw$", ()), ("root node body", r"write_all$", ())]),
+        (LLp + "Node::store_update_buf", [("child node hash", r"write_all$", ("hash",)), ("child node stored in the backing store", r"store_raw$", ()), ("root node body", r"write_all$", ()),
+                                          ("child nodes encoded", r"store_update_buf::\{closure#0\}$", ()), ("root node encoded", r"store_update_buf::\{closure#0\}$", ())]),
+        (LLp + "Node::migrate", [("child node hash", r"write_all$", ("hash",)), ("child node stored in the new backing store", r"store_raw$", ()), ("root node body", r"write_all$", ()),
+                                 ("child nodes encoded", r"migrate::\{closure#0\}$", ()), ("root node encoded", r"migrate::\{closure#0\}$", ())]),
         (LLp + HN + "store_update_buf", [("node hash", r"write_all$", ("hash",)), ("node body", r"store_update_buf$", ("data",))]),
         (LLp + HN + "migrate", [("node hash", r"write_all$", ("hash",)), ("node body", r"::migrate$", ("data",))]),
         (LLp + HN + "serialize", [("distance to the parent", r"write_u32$", ("pop_front",)), ("node hash", r"write_all$", ("hash",)),
@@ -262,7 +339,7 @@ def format_rules(ck, c):
         if not ck.anchor(len(bs) == 1, "TAB", path, "serialiser exists"):
             continue
         f = Fn(bs[0])
-        sites = [(t["f"]["path"], _site_names(f, t, True), t["f"].get("self") or "") for (bi, t) in f.calls(WR_CALLS)]
+        sites = [((t["f"].get("res") if "{closure" in str(t["f"].get("res")) else None) or t["f"]["path"], _site_names(f, t, True), t["f"].get("self") or "") for (bi, t) in f.calls(WR_CALLS)]
         un = _match(items, sites)
         n += len(items)
         ck.ob("TAB", path, "format-items-written", not un,
